@@ -16,7 +16,8 @@ JudgeEv(k, e) ==
     [] e.op = "with_prices" ->
          /\ Judge(k, << <<"NoPanic", MonNoPanic(e)>>, <<"Cleared", MonWCleared(e)>>, <<"Count", MonWCount(e)>>, <<"Expected", MonWExpected(e)>>,
                         <<"WellFormed", MonWWellFormed(e)>>, <<"Fresh", MonWFresh(e)>>, <<"InBand", MonWInBand(e)>>,
-                        <<"Spread", MonWSpread(e)>>,
+                        <<"Spread", MonWSpread(e)>>, <<"TimeAfter", MonTAfter(e)>>, <<"TimeBefore", MonTBefore(e)>>,
+                        <<"TimeSlot", MonTSlot(e)>>, <<"TimeMaxAge", MonTMaxAge(e)>>,
                         <<"Result", MonWResult(e)>> >>)
          /\ Drift(k, ConformsWith(e), e.err)
          /\ (~e.called \/ Emit("STAT", [i |-> k, what |-> "accepted"]))
